@@ -85,7 +85,7 @@ class Report:
                 i += 1
                 continue
             ml = LINE_RE.match(ln)
-            if ml and '=' not in ml.group('label'):
+            if ml:
                 tok = ml.group('num')
                 self.sections[cur].append({'label': ml.group('label').strip(), 'tok': tok, 'value': to_float(tok),
                                            'unit': (ml.group('unit') or '').strip(), 'line_no': i, 'raw': ln})
